@@ -733,6 +733,10 @@ class BaseTransform:
          [  0.   0. 120.]
          [  0.   0. 135.]]
         """
+        # vector input (n,) for a single axis: newer scipy versions read the last axis of
+        # the angles as the axes of `seq`, the shape (n,1) means the same in all versions
+        if isinstance(seq, str) and len(seq) == 1 and np.ndim(angle) == 1:
+            angle = np.reshape(angle, (-1, 1))
         rot = R.from_euler(seq, angle, degrees=degrees)
         return self.rotate(rot, anchor=anchor, start=start)
 
